@@ -576,7 +576,7 @@ func TestC13(t *testing.T) {
 	r := mon.Start(t, "C13")
 	defer r.Close()
 	// ---- (1) decoders ----
-	nb := r.Pick(40, 800)
+	nb := r.Pick(100, 4000)
 	for b := 0; b < nb; b++ {
 		b := b
 		r.Case(fmt.Sprintf("decoders/%d", b), map[string]any{"batch": b, "inputs": 500}, func(c *mon.Case) {
@@ -657,7 +657,7 @@ func TestC13(t *testing.T) {
 		})
 	}
 	// ---- (2) directly constructed hostile DAGs ----
-	nd := r.Pick(160, 3000)
+	nd := r.Pick(400, 20000)
 	for b := 0; b < nd; b++ {
 		b := b
 		r.Case(fmt.Sprintf("constructed/%d", b), map[string]any{"batch": b, "dags": 12, "max_depth": 4}, func(c *mon.Case) {
@@ -677,7 +677,7 @@ func TestC13(t *testing.T) {
 		})
 	}
 	// ---- (3) well-formed DAGs with one or two corruptions ----
-	nm := r.Pick(160, 3000)
+	nm := r.Pick(400, 20000)
 	for b := 0; b < nm; b++ {
 		b := b
 		r.Case(fmt.Sprintf("mutated/%d", b), map[string]any{"batch": b, "dags": 10}, func(c *mon.Case) {
